@@ -90,7 +90,8 @@ def tlc(module_dir, module, cfg, env=None, workers=1, xmx='2g', timeout=3600, me
         deque=False):
     metadir = metadir or os.path.join(RUN, 'meta', '%s_%d_%d' % (module, os.getpid(), int(time.time() * 1e6) % 10 ** 9))
     os.makedirs(metadir, exist_ok=True)
-    jopts = ['-XX:+UseParallelGC', '-Xss1g', '-Xmx' + xmx, '-DTLA-Library=' + LIBPATH]
+    # TLC creates an (empty) scratch directory under java.io.tmpdir per run: keep it inside the run's metadir, which is removed
+    jopts = ['-XX:+UseParallelGC', '-Xss1g', '-Xmx' + xmx, '-DTLA-Library=' + LIBPATH, '-Djava.io.tmpdir=' + metadir]
     if deque:
         jopts.append('-Dtlc2.tool.queue.IStateQueue=StateDeque')
     cmd = ['java'] + jopts + ['-cp', JAR, 'tlc2.TLC', '-workers', str(workers), '-config', cfg, '-metadir', metadir,
